@@ -187,7 +187,7 @@ Fixpoint fold_res {S T} (f : S -> T -> res S) (s : S) (l : list T) : res S :=
 Definition base_tables (s : qst) : list tref :=
   map Some (q_from s) ++ [option_map TTab (q_update s)] ++ map Some (q_with s).
 
-(* Term.fields_() = set(find_(Field)): a *set* of Field objects.  Term.__hash__ is the hash of
+(* Term.fields_() = set(find_(Field)) (still used by PostgreSQL _validate_returning_term): a *set* of Field objects.  Term.__hash__ is the hash of
    get_sql(with_alias=True, with_namespace=True) = "<table alias or name>.<name>" (no schema), and Term.__eq__
    builds a (truthy) criterion, so of several fields with the same rendered key only the first one met survives. *)
 Definition table_name (t : tbl) : string :=
@@ -203,13 +203,13 @@ Fixpoint dedup_fields (seen : list string) (l : list jfield) : list jfield :=
 (* nodes_ order: BasicCriterion (and its subclass ComplexCriterion) yields its right operand before its left
    one, so the fields of ((l1 == r1) & (l2 == r2)) & ... come out last-to-first *)
 Definition crit_nodes (crit : list (jfield * jfield)) : list jfield := rev (flat_map (fun p => [fst p; snd p]) crit).
-Definition crit_field_tables (crit : list (jfield * jfield)) : list tref := map fst (dedup_fields [] (crit_nodes crit)).
 Definition crit_all_tables (crit : list (jfield * jfield)) : list tref := map fst (crit_nodes crit).
 
-(* JoinOn.validate:  criterion_tables - (set(_from) | {join.item for join in _joins} | {self.item}) non-empty *)
+(* JoinOn.validate (after a7c7bb0):  criterion_tables = {f.table for f in criterion.find_(Field)}  -- every field;
+   missing = criterion_tables - (set(_from) | {join.item for join in _joins} | {self.item}) - {None}; non-empty => raise *)
 Definition validate_on (s : qst) (item : tbl) (crit : list tref) : bool :=
   let available := base_tables s ++ map (fun j => Some (j_item j)) (q_joins s) ++ [Some item] in
-  match filter (fun t => negb (mem t available)) crit with
+  match filter (fun t => negb (mem t available) && negb (tref_eqb t None)) crit with
   | [] => true
   | _ => false
   end.
@@ -235,7 +235,7 @@ Definition join_step (s : qst) (item : tbl) (h : joinhow) : res qst :=
   match h with
   | JOn None => Err JoinExc                                  (* if criterion is None: raise *)
   | JOn (Some crit) =>
-      if validate_on s item (crit_field_tables crit) then Ok (do_join s item (Some (crit_all_tables crit))) else Err JoinExc
+      if validate_on s item (crit_all_tables crit) then Ok (do_join s item (Some (crit_all_tables crit))) else Err JoinExc
   | JOnField n =>
       if Nat.eqb n 0 then Err JoinExc                        (* if not fields: raise *)
       else match q_from s with
@@ -386,8 +386,9 @@ Definition step_q (s : qst) (c : qcall) : res qst :=
       else Err QueryExc
   | QReturning ts => fold_res ret1 s ts
   | QTop v percent =>
+      (* try: top = int(value)  except (ValueError, TypeError): raise QueryException; then the percent check *)
       match py_int v with
-      | Err e => if String.eqb e "ValueError" then Err QueryExc else Err e
+      | Err e => if String.eqb e "ValueError" || String.eqb e TypeErr then Err QueryExc else Err e
       | Ok z => if percent && negb (Z.leb 0 z && Z.leb z 100) then Err QueryExc else Ok s
       end
   | QRender =>
@@ -506,17 +507,12 @@ Definition single_table (t : rterm) : bool :=
   match term_tables t with [] => true | p :: r => forallb (ptab_eqb p) r end.
 Definition frag_q (s : qst) (c : qcall) : bool :=
   match c with
-  (* C14-update-join-tableless: a table-less field in the criterion of a join on an UPDATE statement *)
-  | QJoin _ (JOn (Some crit)) =>
-      (is_none (q_update s) || negb (existsb (fun r => is_none r) (crit_all_tables crit)))
-      (* C14-join-field-key-shadowing: two fields of different tables render the same "<table>.<column>" key *)
-      && keys_coherent (crit_nodes crit)
   (* C14-returning findings: RETURNING on a non-DML statement; a term mixing fields of several tables;
      both an INSERT and an UPDATE target; C14-returning-field-key-shadowing *)
   | QReturning ts => is_dml s && (is_none (q_insert s) || is_none (q_update s)) && forallb single_table ts
                      && forallb (fun t => keys_coherent (rfields_j t)) ts
-  (* C14-mssql-top-nonint: float and None values *)
-  | QTop v _ => match v with TVFloat _ | TVNone => false | _ => true end
+  (* C14-mssql-top-float: a non-integral float is truncated by int() instead of being rejected *)
+  | QTop v _ => match v with TVFloat _ => false | _ => true end
   | _ => true
   end.
 
@@ -536,8 +532,6 @@ Inductive ccall :=
 | CCreateTable | CTemporary | CColumns (n : nat) | CPrimaryKey (n : nat) | CForeignKey (n : nat)
 | CAsSelect (is_query : bool) | CLocal | CPreserveRows.
 
-Definition otruthy (o : option nat) : bool := match o with Some n => truthy n | None => false end.
-
 Definition step_c (s : cst) (c : ccall) : res cst :=
   match c with
   | CCreateTable =>
@@ -548,10 +542,10 @@ Definition step_c (s : cst) (c : ccall) : res cst :=
       if c_as_select s then Err AttrErr
       else Ok (mkC (c_vertica s) (c_table s) (c_temporary s) (c_as_select s) (c_columns s + n) (c_pk s) (c_fk s))
   | CPrimaryKey n =>
-      if otruthy (c_pk s) then Err AttrErr                      (* if self._primary_key: *)
+      if is_some (c_pk s) then Err AttrErr                      (* if self._primary_key is not None: *)
       else Ok (mkC (c_vertica s) (c_table s) (c_temporary s) (c_as_select s) (c_columns s) (Some n) (c_fk s))
   | CForeignKey n =>
-      if otruthy (c_fk s) then Err AttrErr                      (* if self._foreign_key: *)
+      if is_some (c_fk s) then Err AttrErr                      (* if self._foreign_key is not None: *)
       else Ok (mkC (c_vertica s) (c_table s) (c_temporary s) (c_as_select s) (c_columns s) (c_pk s) (Some n))
   | CAsSelect is_query =>
       if truthy (c_columns s) then Err AttrErr
@@ -576,22 +570,14 @@ Definition guards_c : list (guard cx) := [
   ("vertica_local_requires_temporary", (fun x => match x with (s, CLocal) => negb (c_temporary s) | _ => false end), AttrErr);
   ("vertica_preserve_rows_requires_temporary", (fun x => match x with (s, CPreserveRows) => negb (c_temporary s) | _ => false end), AttrErr)
 ].
-(* C14-primary-key-unarmed / C14-foreign-key-unarmed: an earlier call with an empty column list *)
-Definition frag_c (s : cst) (c : ccall) : bool :=
-  match c with
-  | CPrimaryKey _ => match c_pk s with Some 0 => false | _ => true end
-  | CForeignKey _ => match c_fk s with Some 0 => false | _ => true end
-  | _ => true
-  end.
-
 (* ========================================================================================== *)
 (* 3. DropQueryBuilder (+ ClickHouse)                                                          *)
 (* ========================================================================================== *)
 Inductive dkind := KDatabase | KTable | KUser | KView | KIndex | KDictionary | KQuota.
 Record dst := mkD {
   d_click : bool;
-  d_target : option bool;     (* None: never set (the initial "");  Some b: set, b = bool(_drop_target) *)
-  d_cluster : option bool     (* ClickHouse _cluster_name, likewise *)
+  d_target : option bool;     (* None: _drop_target_kind is None;  Some b: a target was set, b = bool(_drop_target) *)
+  d_cluster : option bool     (* ClickHouse _cluster_name: None, or Some (bool(name)) *)
 }.
 Inductive dcall := DDrop (k : dkind) (nonempty : bool) | DOnCluster (nonempty : bool).
 
@@ -605,10 +591,10 @@ Definition step_d (s : dst) (c : dcall) : res dst :=
   if click_only c && negb (d_click s) then Err AttrErr
   else match c with
   | DDrop k ne =>
-      if odefault false (d_target s) then Err AttrErr             (* if self._drop_target: *)
+      if is_some (d_target s) then Err AttrErr                    (* if self._drop_target_kind is not None: *)
       else Ok (mkD (d_click s) (Some (target_truthy k ne)) (d_cluster s))
   | DOnCluster ne =>
-      if odefault false (d_cluster s) then Err AttrErr            (* if self._cluster_name: *)
+      if is_some (d_cluster s) then Err AttrErr                   (* if self._cluster_name is not None: *)
       else Ok (mkD (d_click s) (d_target s) (Some ne))
   end.
 Definition wf_d (s : dst) (c : dcall) : bool := negb (click_only c) || d_click s.
@@ -618,13 +604,6 @@ Definition guards_d : list (guard dx) := [
   ("drop_target_once", (fun x => match x with (s, DDrop _ _) => is_some (d_target s) | _ => false end), AttrErr);
   ("on_cluster_once", (fun x => match x with (s, DOnCluster _) => is_some (d_cluster s) | _ => false end), AttrErr)
 ].
-(* C14-drop-target-unarmed / C14-on-cluster-unarmed: an earlier call with the empty string *)
-Definition frag_d (s : dst) (c : dcall) : bool :=
-  match c with
-  | DDrop _ _ => match d_target s with Some false => false | _ => true end
-  | DOnCluster _ => match d_cluster s with Some false => false | _ => true end
-  end.
-
 (* ========================================================================================== *)
 (* 4. small objects: Table.for_/for_portion, window frames, Case, CustomFunction, set operations *)
 (* ========================================================================================== *)
@@ -779,6 +758,6 @@ Definition expected_raises : list (string * list string) := [
   ("ClickHouseDropQueryBuilder.drop_quota", [AttrErr])
 ].
 (* the builder methods in which, with immutable=False, something is already written when the raise happens
-   (the C14-mutable findings): multi-term calls that applied earlier terms, and top() storing the value first *)
+   (the C14-mutable findings): multi-term calls that applied earlier terms *)
 Definition expected_mutable_unsafe : list string :=
-  ["QueryBuilder.select"; "PostgreSQLQueryBuilder.returning"; "MSSQLQueryBuilder.top"].
+  ["QueryBuilder.select"; "PostgreSQLQueryBuilder.returning"].
